@@ -224,4 +224,41 @@ def check_kernels(repo, res, names, rule_v="R-NUM(value)", rule_d1="R-NUM(d1)", 
             res.check(not bad[m], rule, f, "constructed-and-evaluated",
                       "%s.%s, on kernels built by the real constructor for every spread form (scalar, per-observation, integer-typed, single-column) and flat / single-column predictions (%d runs), is %s"
                       % (name, m, done[m], what), "; ".join(bad[m][:2]), node=f.node)
+    # the Square loss with observation weights: flat, single-column and integer-typed weight arrays
+    if "Square" in names:
+        kcls = repo.cls(M.M_LOSSTYPE, "Square")
+        f = repo.resolve_method(kcls, "loss")
+        y = [1.5, 2.0, 4.25]
+        bad, und, k = [], None, 0
+        for wl, w in (("flat real weights", NumArr([1.0, 0.5, 2.0])), ("single-column real weights", NumArr([[1.0], [0.5], [2.0]])), ("integer weights", NumArr([1, 2, 1])),
+                      ("weights with a zero", NumArr([1.0, 0.0, 2.0]))):
+            wv = [float(v) for v in w.ravel().data]
+            try:
+                kind, out, me, _ = construct(repo, "Square", NumArr(list(y)), {"weights": w})
+                if kind != "return":
+                    bad.append("%s: the constructor raises %s for valid weights" % (wl, out))
+                    continue
+                for form, yh in (("flat prediction", NumArr(list(yhat0))), ("single-column prediction", NumArr([[v] for v in yhat0]))):
+                    _, (kind, out) = call(repo, kcls, me, "loss", yh)
+                    k += 1
+                    want = sum((wi * (a - b)) ** 2 for wi, a, b in zip(wv, y, yhat0))
+                    if kind != "return" or isinstance(out, NumArr) or not _close(out, want, 1e-9):
+                        bad.append("%s, %s: loss = %s, the sum of squared weighted residuals is %.10g" % (wl, form, out.tolist() if isinstance(out, NumArr) else out, want))
+            except Undecided as e:
+                und = "%s: %s" % (wl, e)
+                break
+        for wl, w in (("a negative weight", NumArr([1.0, -0.5, 2.0])), ("all weights zero", NumArr([0.0, 0.0, 0.0]))):
+            try:
+                kind, out, me, _ = construct(repo, "Square", NumArr(list(y)), {"weights": w})
+                k += 1
+                if kind != "raise":
+                    bad.append("%s is accepted" % wl)
+            except Undecided as e:
+                und = "%s: %s" % (wl, e)
+        n += k
+        if und:
+            res.undecided(rule_v, f, "weighted", "outside the modelled subset: %s" % und)
+        else:
+            res.check(not bad, rule_v, f, "weighted", "Square.loss with observation weights (flat, single-column, integer-typed, with a zero) is the sum of squared weighted residuals; "
+                      "negative and all-zero weights are refused (%d runs)" % k, "; ".join(bad[:2]), node=f.node)
     return n
